@@ -3,3 +3,4 @@ pub mod c01;
 pub mod structural;
 pub mod fault;
 pub mod grid;
+pub mod iters;
